@@ -11,7 +11,7 @@ from . import framework, tlc, c20
 
 
 def repro(case, data, base):
-    if len(data) <= 96:
+    if len(data) <= 96 or base is None:
         return "python -c \"import amoco.system.core as c; c.read_program(bytes.fromhex('%s'))\"" % data.hex()
     src = base["src"].split(":", 1)
     path = ("/repo/" if src[0] == "repo" else "/verif/corpus/ident/") + src[1]
@@ -40,12 +40,15 @@ def main():
     kf = os.path.join(tlc.VERIF, "known_findings.d", "C20.json")
     if os.path.exists(kf):
         listed = set(f["key"] for f in json.load(open(kf))["findings"])
-    collector = {}
-    for seed in [int(x) for x in sys.argv[2:]]:
+    state = os.path.join(tlc.WORK, "c20findings_state.json")
+    collector = json.load(open(state)) if os.path.exists(state) and "--resume" in sys.argv else {}
+    for seed in [int(x) for x in sys.argv[2:] if x != "--resume"]:
         ctx = framework.Ctx("C20", tier, seed)
         ctx.known = []
         K.campaign(ctx, collector)
         print("seed %d: %d failing keys so far" % (seed, len(collector)), file=sys.stderr)
+        with open(state, "w") as f:      # survive a crash of the (long) campaign
+            json.dump(collector, f)
     bases, _ = c20.load_bases()
     byid = dict((b["id"], b) for b in bases)
     out = []
